@@ -352,7 +352,6 @@ def obligations(chk, props_file, extra_targets=()):
     the Print Assumptions block under each. Records obligations/discharged and the
     axioms in the evidence. Returns (ok, broken) where broken names what failed."""
     vo = props_file[:-2] + ".vo"
-    # force re-check of the property file itself so that its output is captured
     with coq_lock():
         ok, log = coq_make([vo] + list(extra_targets))
     if ok:
@@ -368,7 +367,8 @@ def obligations(chk, props_file, extra_targets=()):
     src = strip_comments(open(os.path.join(COQ, props_file)).read())
     thms = re.findall(r"^\s*(?:Theorem|Lemma)\s+(\w+)", src, re.M)
     chk.cov["obligations"] += len(thms)
-    chk.cov["checker_cmd"] = "coq_makefile -f _CoqProject && make %s  (coqc 8.16.1, full .vo build; Print Assumptions under every theorem)" % vo
+    chk.cov["checker_cmd"] = ("coq_makefile -f _CoqProject && make %s  (coqc 8.16.1, full .vo build), then coqc -o build/props/<pid>/%s %s to capture "
+                              "Print Assumptions under every theorem (the shared .vo is never removed)" % (vo, os.path.basename(vo), props_file))
     bad = scan_forbidden()
     if bad:
         chk.note("forbidden constructs:", bad[:5])
